@@ -4,7 +4,7 @@ From Coq Require Import List ZArith String Ascii Bool Arith.
 From SMD Require Import Base.Sexp Model.Value Model.Order Model.PathElem Model.PathSet
   Model.Schema Model.Walk Model.Validate Model.FieldSet Model.Remove Model.Merge Model.Compare
   Model.Matcher Model.Reconcile Model.Updater Model.Codec
-  Spec.PathsAsSets Spec.Resolve Spec.RefValid Spec.RefDiff Spec.Agree Spec.Patterns Driver.Common Driver.Typed.
+  Spec.PathsAsSets Spec.Resolve Spec.RefValid Spec.RefDiff Spec.Agree Spec.Patterns Spec.TypeAt Driver.Common Driver.Typed.
 Import ListNotations.
 Open Scope string_scope.
 Open Scope bool_scope.
@@ -239,7 +239,7 @@ Definition out_managed (o : hout) : option (list (string * (string * bool * list
 
 Definition is_ok (o : hout) : bool := match o with HOk _ _ => true | _ => false end.
 
-Definition apply_oracles (vers : list string) (ign : string -> path -> bool) (prop : string) (s : schema) (tr : typeref) (live : tv)
+Definition apply_oracles (gone : string -> bool) (vers : list string) (ign : string -> path -> bool) (prop : string) (s : schema) (tr : typeref) (live : tv)
   (mobs : list (string * (string * bool * list path))) (mgr ver : string) (cfg : value)
   (noforce force reapply rion : hout) : list string :=
   let lv := snd live in
@@ -428,6 +428,15 @@ Definition apply_oracles (vers : list string) (ign : string -> path -> bool) (pr
          then chk (agrees s tr cfg res) "prop C19 values of ignored fields are merged like any other" else [])
     | _, _ => []
     end
+  else if String.eqb prop "C20" then
+    flat_map (fun o => match o with
+                       | HErr => ["prop C20 an operation failed although every remaining version converts"]
+                       | HPanic => ["prop C20 an operation panicked"]
+                       | HOk _ m =>
+                           chk (forallb (fun r : string * (string * bool * list path) => negb (gone (fst (fst (snd r))))) m)
+                               "prop C20 a record at a version reported as gone is dropped"
+                       | _ => []
+                       end) [noforce; force]
   else [].
 
 Definition run_hist_apply (prop : string) (schemas : list (string * schema)) (hc : hconf)
@@ -451,7 +460,7 @@ Definition run_hist_apply (prop : string) (schemas : list (string * schema)) (hc
                 chk (ures_matches (apply_op c live' (ver, cfg) ver (managed_of m) mgr false) reapply) "corr re-apply"
             | _, _ => []
             end in
-          let prop_msgs := apply_oracles (map hv_name (hc_versions hc)) (ignored_at_h hc) prop s tr live mobs mgr ver cfg noforce force reapply rion in
+          let prop_msgs := apply_oracles (fun v => existsb (String.eqb v) (hc_missing hc)) (map hv_name (hc_versions hc)) (ignored_at_h hc) prop s tr live mobs mgr ver cfg noforce force reapply rion in
           let nt :=
             (* >= 2 managers before the step and the apply drops or changes something *)
             if Nat.leb 2 (List.length mobs) then 1 else 0 in
@@ -517,8 +526,13 @@ Definition run_hist_update (prop : string) (schemas : list (string * schema)) (h
                               | None => false
                               end) mobs)
                   "prop C19 changes confined to ignored fields take ownership away from nobody"
+            else if String.eqb prop "C20" then
+              chk (forallb (fun r : string * (string * bool * list path) =>
+                              negb (existsb (String.eqb (fst (fst (snd r)))) (hc_missing hc))) mafter)
+                  "prop C20 a record at a version reported as gone is dropped"
             else []
-        | HErr => if String.eqb prop "C06" then ["prop C06 an operation on valid inputs failed without a conflict"] else []
+        | HErr => if String.eqb prop "C06" then ["prop C06 an operation on valid inputs failed without a conflict"]
+                  else if String.eqb prop "C20" then ["prop C20 an operation failed although every remaining version converts"] else []
         | HPanic => if String.eqb prop "C06" then ["prop C06 an operation on valid inputs panicked"] else []
         | HConflict _ => ["prop C04 an update reported a conflict"]
         | HNone => []
@@ -615,4 +629,103 @@ Definition run_c19_same (a b obs : sexp) : outcome :=
   match dec_bool obs with
   | Some ok => mkOut (chk ok "prop C19 exclusion set and equivalent filter give identical results") 1 1 []
   | None => out_bad "c19.same"
+  end.
+
+(* ---------- C20: multi-version run against its single-version replay ---------- *)
+
+Definition rename_pe (f : string -> string) (e : pe) : pe :=
+  match e with
+  | PEField n => PEField (f n)
+  | PEKey k => PEKey (fl_sort (map (fun kv => (f (fst kv), rename_value f (snd kv))) k))
+  | PEValue v => PEValue (rename_value f v)
+  | PEIndex i => PEIndex i
+  end.
+
+Definition run_c20_sim (schemas : list (string * schema)) (hc : hconf) (lm mm ls ms : sexp) : outcome :=
+  match dec_tv lm, dec_managed mm, dec_tv ls, dec_managed ms with
+  | Some lm, Some mm, Some ls, Some ms =>
+      match find_version hc "v1" with
+      | None => out_bad "c20.sim base version"
+      | Some base =>
+          let s := match assoc_get (hv_sid base) schemas with Some s => s | None => [] end in
+          let tr := hv_tr base in
+          let to_base (ver : string) (p : path) : path :=
+            match find_version hc ver with
+            | Some v => map (rename_pe (rename_key v base)) p
+            | None => p
+            end in
+          (* the known shape in which the version-by-version add-back is not transparent
+             (F8): a path owned at one version beneath a list item or map entry that no
+             record of that same version contains *)
+          let is_member_path (q : path) := match rev q with (PEKey _ | PEValue _) :: _ => true | _ => false end in
+          let owned_at (ver : string) (q : path) :=
+            existsb (fun r : string * (string * bool * list path) =>
+                       String.eqb (fst (fst (snd r))) ver && pmem q (map (to_base ver) (snd (snd r)))) mm in
+          let f8_shape :=
+            existsb (fun r : string * (string * bool * list path) =>
+                       let ver := fst (fst (snd r)) in
+                       existsb (fun p =>
+                                  existsb (fun q => negb (Nat.eqb (List.length q) (List.length p)) &&
+                                                    negb (Nat.eqb (List.length q) 0) &&
+                                                    negb (owned_at ver q) &&
+                                                    existsb (fun r2 : string * (string * bool * list path) =>
+                                                               negb (String.eqb (fst (fst (snd r2))) ver) &&
+                                                               pmem q (map (to_base (fst (fst (snd r2)))) (snd (snd r2)))) mm)
+                                          (prefixes (to_base ver p)))
+                               (snd (snd r))) mm in
+          let same :=
+            veq_assoc s tr (snd lm) (snd ls) &&
+            Nat.eqb (List.length mm) (List.length ms) &&
+            forallb (fun r : string * (string * bool * list path) =>
+                       let '(ver, ap, ps) := snd r in
+                       match assoc_get (fst r) ms with
+                       | Some (_, ap2, ps2) => Bool.eqb ap ap2 && psame (map (to_base ver) ps) ps2
+                       | None => false
+                       end) mm in
+          mkOut (if same then []
+                 else ["prop C20 the multi-version run, translated to one version, equals the single-version run"])
+                1 (if Nat.leb 2 (List.length (nodup String.string_dec (map (fun r : string * (string * bool * list path) => fst (fst (snd r))) mm))) then 1 else 0)
+                (if f8_shape then ["cross-version-nesting"] else [])
+      end
+  | _, _, _, _ => out_bad "c20.sim decode"
+  end.
+
+(* ---------- C20: reconcile with a schema in which fields turned atomic ---------- *)
+
+Definition run_c20_reconcile (s : schema) (tr set res again : sexp) : outcome :=
+  match dec_typeref tr, dec_paths set with
+  | Some tr, Some set =>
+      let fs := ps_of_paths set in
+      let model := reconcile_field_set s tr fs in
+      let obs_paths : option (option (list path)) :=
+        match res with
+        | SAtom "unchanged" => Some None
+        | SAtom "err" | SAtom "panic" => None
+        | _ => match dec_paths res with Some p => Some (Some p) | None => None end
+        end in
+      match obs_paths with
+      | None => mkOut ["prop C20 reconcile failed"] 1 0 []
+      | Some obs =>
+          let result := match obs with Some p => p | None => set end in
+          let expect := reconcile_ref s tr set in
+          mkOut
+            (chk (match model, obs with
+                  | Some None, None => true
+                  | Some (Some m), Some p => paths_eqb (ps_elems m) p
+                  | _, _ => false
+                  end) "corr reconcile" @@
+             chk (psame result expect)
+                 "prop C20 each owner of a field that turned atomic (or of anything beneath it) owns exactly the atomic field" @@
+             chk (forallb (fun p => negb (beneath_atomic s tr p)) result)
+                 "prop C20 no record keeps a path beneath an atomic field" @@
+             chk (match obs with None => psame set expect | Some _ => true end)
+                 "prop C20 records without such a path are untouched" @@
+             chk (match again with
+                  | SAtom "unchanged" => true
+                  | _ => match dec_paths again with Some p => psame p result | None => false end
+                  end) "prop C20 reconciling again changes nothing")
+            1 (if existsb (fun p => beneath_atomic s tr p) set then 1 else 0)
+            [match obs with None => "unchanged" | Some _ => "reconciled" end]
+      end
+  | _, _ => out_bad "c20.reconcile decode"
   end.
